@@ -1,6 +1,6 @@
 SPECIFICATION TraceSpec
 CONSTANTS
-  Patterns <- P12
+  Patterns <- PUp
   Ids = {"i1", "i2", "i3", "i4"}
   Haystacks = {}
   KeepSets = {}
